@@ -6,6 +6,7 @@ import core
 import eng_opts
 import eng_win
 import eng_cxx
+import eng_mt
 
 
 def scen_check(module, level, rule, min_obs_quick=None, min_obs_thorough=None, config="asan",
@@ -187,6 +188,7 @@ CHECKS = {
         "life-cycle state machine asserting only state-determined results; non-trivial = more than 3 ops checked",
         {"ops_checked": 50000, "state_op_pairs": 45, "einval_checks": 5000, "epipe_checks": 3000, "cached_status_checks": 500},
         assumptions=KERNEL_TRUST),
+    "C20": {"run": eng_mt.run, "level": "exploration", "module": "eng_mt"},
     "C19": {"run": eng_cxx.run, "level": "exploration", "module": "eng_cxx"},
     "C18": {"run": eng_win.run, "level": "exploration", "module": "eng_win"},
     "C13": {"run": eng_opts.run, "level": "exploration", "module": "eng_opts"},
@@ -283,6 +285,13 @@ MANIFEST_TEXT = {
             "(state, operation) pairs.",
             "data- and timing-dependent results are only required to lie in the operation's documented result set; the fork-child state is exercised by C15",
             "DESIGN.md 3/C14"),
+    "C20": ("mt", "ThreadSanitizer on the library + per-child cross-talk oracle (payload, exit code, descriptor table, EOF), injected delays at the libc boundary",
+            "The documented concurrent uses (reader + writer thread on one child; complete cycles on different children from 2-16 threads "
+            "with simultaneous starts; concurrent reproc_strerror) run under ThreadSanitizer with seeded delays between the library's "
+            "critical steps; every child carries a unique payload and exit code, reports the descriptor table it was exec'ed with, and must "
+            "see EOF on its own stdin while its siblings are alive.",
+            "held on the interleavings observed (their count is reported), not on all schedules; helgrind is not used (false races after fork)",
+            "DESIGN.md 3/C20"),
     "C19": ("cxx", "runtime monitor: reproc++ compiled from the tree against a recording fake C API; field-by-field and result-by-result comparison under ASan/UBSan",
             "reproc.cpp and the headers are linked against fake reproc_* functions that record everything they receive and return "
             "scripted values, so every field, container conversion, constant and return path of the wrapper is observed directly.",
@@ -303,8 +312,9 @@ MANIFEST_TEXT = {
             "DESIGN.md 3/C13"),
 }
 
-ENGINE_PATHS = {"cxx": "eng_cxx.py", "win": "eng_win.py", "seq": "eng_seq.py", "opts": "eng_opts.py", "life": "eng_life.py", "poll": "eng_poll.py", "io": "eng_io.py", "fault": "eng_fault.py", "ident": "eng_ident.py"}
+ENGINE_PATHS = {"mt": "eng_mt.py", "cxx": "eng_cxx.py", "win": "eng_win.py", "seq": "eng_seq.py", "opts": "eng_opts.py", "life": "eng_life.py", "poll": "eng_poll.py", "io": "eng_io.py", "fault": "eng_fault.py", "ident": "eng_ident.py"}
 ENGINE_KINDS = {
+    "mt": "multi-threaded harness src/mt.c built with -fsanitize=thread; delay injection in the interposition layer",
     "cxx": "in-process C++ harness src/cxx.cpp: fake C API + reproc.cpp from the tree",
     "win": "Windows sources compiled with -D_WIN32 against stubs/windows.h; in-process enumerator src/win.c",
     "seq": "scenario runner on a virtual clock; random API sequences; builds asan (asserts on) and asan-nd",
